@@ -99,13 +99,13 @@ ParseVarint(bs) ==
                  ELSE go(p + 1, mul * 128, acc + ((b - 128) * mul))
     IN go(1, 1, 0)
 
-\* elements from position p to the end of bs: [ok, toks] or Bad(why)
+\* elements from position p0 to the end of bs: [ok, toks] or Bad(why)
+\* (a fold over the byte positions rather than a recursion over the elements: blocks with tens
+\*  of thousands of elements are parsed in linear time and constant evaluation depth)
 ParseElems(bs, p0) ==
     LET n == Len(bs)
-        RECURSIVE go(_, _)
-        go(p, acc) ==
-            IF p > n THEN [ok |-> TRUE, toks |-> acc]
-            ELSE
+        El(tok, nx) == [ok |-> TRUE, tok |-> tok, nx |-> nx]
+        elem(p) ==       \* the element whose tag byte is at p: [ok, tok, nx] or Bad(why)
             LET tag == bs[p]
                 ty  == tag % 4
                 up  == tag \div 4
@@ -113,26 +113,31 @@ ParseElems(bs, p0) ==
             IF ty = 0 THEN
                 IF up < 60 THEN
                     IF ~HasBytes(bs, p + 1, up + 1) THEN Bad("truncated-literal")
-                    ELSE go(p + 2 + up, Append(acc, Lit(0, B(SubSeq(bs, p + 1, p + 1 + up)))))
+                    ELSE El(Lit(0, B(SubSeq(bs, p + 1, p + 1 + up))), p + 2 + up)
                 ELSE
                     LET x == up - 59 IN
                     IF ~HasBytes(bs, p + 1, x) THEN Bad("truncated-literal-length")
                     ELSE IF x = 4 /\ bs[p + 4] >= 128 THEN Bad("length-huge")
                     ELSE LET L == FromLE(SubSeq(bs, p + 1, p + x)) + 1 IN
                          IF ~HasBytes(bs, p + 1 + x, L) THEN Bad("truncated-literal")
-                         ELSE go(p + 1 + x + L,
-                                 Append(acc, Lit(x, B(SubSeq(bs, p + 1 + x, p + x + L)))))
+                         ELSE El(Lit(x, B(SubSeq(bs, p + 1 + x, p + x + L))), p + 1 + x + L)
             ELSE IF ty = 1 THEN
                 IF ~HasBytes(bs, p + 1, 1) THEN Bad("truncated-offset")
-                ELSE go(p + 2, Append(acc, Copy1(((up \div 8) * 256) + bs[p + 1], (up % 8) + 4)))
+                ELSE El(Copy1(((up \div 8) * 256) + bs[p + 1], (up % 8) + 4), p + 2)
             ELSE IF ty = 2 THEN
                 IF ~HasBytes(bs, p + 1, 2) THEN Bad("truncated-offset")
-                ELSE go(p + 3, Append(acc, Copy2(FromLE(SubSeq(bs, p + 1, p + 2)), up + 1)))
+                ELSE El(Copy2(FromLE(SubSeq(bs, p + 1, p + 2)), up + 1), p + 3)
             ELSE
                 IF ~HasBytes(bs, p + 1, 4) THEN Bad("truncated-offset")
                 ELSE IF bs[p + 4] >= 128 THEN Bad("offset-huge")
-                ELSE go(p + 5, Append(acc, Copy4(FromLE(SubSeq(bs, p + 1, p + 4)), up + 1)))
-    IN go(p0, <<>>)
+                ELSE El(Copy4(FromLE(SubSeq(bs, p + 1, p + 4)), up + 1), p + 5)
+        step(st, i) ==   \* st = [ok, nx (position of the next tag byte), toks] or Bad(why)
+            IF ~st.ok THEN st
+            ELSE IF i < st.nx THEN st
+            ELSE LET e == elem(i) IN
+                 IF ~e.ok THEN e ELSE [ok |-> TRUE, nx |-> e.nx, toks |-> Append(st.toks, e.tok)]
+        fin == FoldLeft(step, [ok |-> TRUE, nx |-> p0, toks |-> <<>>], [i \in 1..n |-> i])
+    IN IF fin.ok THEN [ok |-> TRUE, toks |-> fin.toks] ELSE fin
 
 \* syntactic parse of a block: [ok, n (declared length), toks] or Bad(why)
 Parse(bs) ==
